@@ -74,7 +74,7 @@ def _delegates(R, q: str, callee: str, want_args: List[str], want_kw: Dict[str, 
     R.check(len(rets) == 1, q, 'single-return', 'a single delegating return', f'{len(rets)} return statements', where=f.fi.where)
     v = rets[0].ast.value
     if not is_call(v, callee):
-        R.violation(q, f'delegate:{text(v)[:50]}', f'`return {text(v)[:60]}` does not delegate to {callee}()', where=f.where(rets[0]))
+        R.violation(q, f'delegate:{text(v)[:50]}', f'`return {text(v)[:60]}` does not delegate to {callee}()', where=f.where(rets[0]), mismatch=True)
         return
     args = [text(a) for a in v.args]
     kws = {k.arg: text(k.value) for k in v.keywords}
@@ -214,7 +214,7 @@ def _eval_namespace(R):
         return f, None, None
     c = ev[0]
     if len(c.args) != 3:
-        R.violation(q, 'eval-call:' + text(c)[:50], f'`{text(c)[:60]}` is not eval(expression, globals, <namespace>)', where=f.fi.where)
+        R.violation(q, 'eval-call:' + text(c)[:50], f'`{text(c)[:60]}` is not eval(expression, globals, <namespace>)', where=f.fi.where, mismatch=True)
         return f, c, None
     se = f.symexec()
     ns = canon(se.value(_stmt_of(f.fi.node, se, c), c.args[2]))
@@ -409,11 +409,84 @@ def r7_label_provenance(R) -> None:
     ok = len(posr) == 1 and g.holds(posr[0].id, f"'`' not in {lab}")
     R.check(ok, g.q, 'positional-passthrough', 'an index without backticks keeps its positional meaning (int(text))',
             "no `if '`' not in label: return int(label.strip())`", where=g.fi.where)
-    labr = [r for r in rets if is_self_call(r.ast.value, '_locate_period_in_span')]
-    R.check(len(labr) >= 1 and all(text(r.ast.value.args[0]) == 'period' for r in labr), g.q, 'label-lookup', 'a backticked label is located in the span',
+    # the lookup of the label (returned as it is, or kept in a local and adjusted before it is returned)
+    looks = [(n_, c_) for n_ in g.cfg.nodes if n_.ast is not None and n_.kind in ('stmt', 'test') for c_ in ast.walk(n_.ast) if is_self_call(c_, '_locate_period_in_span') and c_.args]
+    labr = [n_ for (n_, c_) in looks if any(r.id == n_.id or g.cfg.reaches(n_.id, r.id) for r in rets)]
+    R.check(len(labr) >= 1 and all(text(c_.args[0]) == 'period' for (_n, c_) in looks), g.q, 'label-lookup', 'a backticked label is located in the span',
             'labels are not resolved with _locate_period_in_span(period)', where=g.fi.where)
     ks = g.raises('KeyError')
     R.check(len(ks) >= 1, g.q, 'label-missing', 'an unknown label raises KeyError', 'unknown labels do not raise KeyError', where=g.fi.where)
+
+
+def r8_bracket_pattern(R) -> None:
+    """The pattern that finds the index brackets of an expression decides which labels can be written in backticks at all.
+    Its contents part must accept any text (every character that can occur in a period label: `-`, `/`, `.`, blanks ...):
+    a contents part restricted to a class of characters silently leaves the brackets of other labels unresolved, and the
+    backticks then reach Python's own eval() (SyntaxError).  Read on the regex AST, whatever way the pattern is spelt."""
+    import re._constants as sc  # type: ignore
+    from fsa import rx
+    from fsa.consts import folder, CompiledRegex
+    q = f'{VC}._resolve_expression_indexes'
+    f = Fn(R, q)
+    pats = []
+    fd = folder(R.repo, 'fsic.core.containers')
+    for n in f.cfg.nodes:
+        if n.ast is None:
+            continue
+        for x in ast.walk(n.ast):
+            pat = None
+            if is_call(x, 're.compile', 're.sub', 're.finditer') and x.args:
+                pat = (x.args[0], kwarg(x, 'flags') or (x.args[1] if is_call(x, 're.compile') and len(x.args) > 1 else None))
+            elif method_call(x, 'sub', 'finditer') and isinstance(x.func.value, ast.Name) and x.func.value.id not in f.lf.locals:
+                try:
+                    v = fd.get(x.func.value.id)
+                except Exception:
+                    v = None
+                if isinstance(v, CompiledRegex):
+                    pats.append((v.pattern, v.flags, f.where(n)))
+                continue
+            if pat is not None:
+                try:
+                    ptxt = fd.fold(pat[0]) if hasattr(fd, 'fold') else (pat[0].value if isinstance(pat[0], ast.Constant) else None)
+                except Exception:
+                    ptxt = pat[0].value if isinstance(pat[0], ast.Constant) else None
+                flags = 0
+                if pat[1] is not None:
+                    try:
+                        import re as _re
+                        flags = int(eval(compile(ast.Expression(body=pat[1]), '<flags>', 'eval'), {'re': _re, '__builtins__': {}}))
+                    except Exception:
+                        flags = None
+                if isinstance(ptxt, str) and flags is not None and ('[' in ptxt):
+                    pats.append((ptxt, flags, f.where(n)))
+    if not R.expect(q, len(pats), 1, 'pattern that finds the index brackets'):
+        return
+    ptxt, flags, where = pats[0]
+    parsed = rx.parse(ptxt, flags)
+    its = rx.items(parsed)
+    opens = [i for i, it in enumerate(its) if rx.is_literal(it, '[')]
+    closes = [i for i, it in enumerate(its) if rx.is_literal(it, ']')]
+    if not opens or not closes or opens[0] >= closes[-1]:
+        raise Unsupported(f'{q}: the bracket pattern `{ptxt[:40]}` is not `[` ... `]`')
+    inner = its[opens[0] + 1:closes[-1]]
+    restricted = []
+    anyish = False
+    for (op, av) in rx.walk(inner):
+        if op in (sc.MAX_REPEAT, sc.MIN_REPEAT):
+            body = rx.items(av[2])
+            for (o2, a2) in body:
+                if o2 is sc.ANY:
+                    anyish = True
+                elif o2 is sc.IN and not any(o3 is sc.NEGATE for (o3, _a3) in a2):
+                    cls_ = rx.charclass((o2, a2))
+                    if cls_ is None or not ({'-', '/', '.', ':'} <= cls_):
+                        # a class made of whitespace only is the padding around the contents, not the contents
+                        if not (cls_ is not None and cls_ <= set(' \t\n\r\f\v')) and not all(o3 is sc.CATEGORY and a3 is sc.CATEGORY_SPACE for (o3, a3) in a2):
+                            restricted.append(cls_)
+    R.check(anyish and not restricted, q, 'bracket-contents-any', 'the contents of an index bracket can be any text',
+            f'the pattern that finds index brackets (`{ptxt.strip()[:60]}`) only accepts contents made of a restricted class of characters: a backticked label with any other '
+            f'character (`-` in 2000-03-31 or in -2, `/`, `.`) is not recognised as an index at all, its backticks reach Python\'s eval() and the expression fails '
+            f'with SyntaxError', where=where, decided=bool(restricted))
 
 
 def r7b_int_contract(R) -> None:
@@ -438,3 +511,4 @@ def run(R) -> None:
     R.rule('C16.R5', lambda: r5_no_self_writes(R))
     R.rule('C16.R6', lambda: r6_nameerror(R))
     R.rule('C16.R7', lambda: (r7_label_provenance(R), r7b_int_contract(R)))
+    R.rule('C16.R8', lambda: r8_bracket_pattern(R))
